@@ -634,7 +634,7 @@ func writeEvidence(id, tier string, seed uint64, pc propCfg, t *workerOut, nviol
 		"samples":                     samples,
 		"families":                    pc.Families,
 		"seed_base":                   seed * 1000003,
-		"seeds":                       fmt.Sprintf("seed_base + worker + i*%d for run index i of each of %d workers", workers, workers),
+		"seeds":                       fmt.Sprintf("seed_base + worker + n*%d for the n-th run of a family by each of %d workers", workers, workers),
 		"runs_per_hour":               int(float64(t.Runs) / exploreWall * 3600),
 		"sim_time_s":                  float64(t.SimTimeMS) / 1000,
 		"controller_steps":            t.Steps,
